@@ -129,10 +129,13 @@ func (t *Table) ToMarkdown() string {
 	return sb.String()
 }
 
-// escapeMarkdownCell makes cell text safe inside a pipe table: newlines become
+// escapeMarkdownCell makes cell text safe inside a pipe table: line breaks (LF,
+// CR LF and a bare CR, all of which end a line for a Markdown parser) become
 // spaces and pipes are escaped so they do not start a new column.
 func escapeMarkdownCell(s string) string {
+	s = strings.ReplaceAll(s, "\r\n", " ")
 	s = strings.ReplaceAll(s, "\n", " ")
+	s = strings.ReplaceAll(s, "\r", " ")
 	return strings.ReplaceAll(s, "|", "\\|")
 }
 
